@@ -155,4 +155,16 @@ theorem psiN_involution_ae (l u w : ι → ℝ) (hlu : ∀ i, l i < u i) (g : Ve
   rw [h2, this]
   simp [flipN, toProd, ofProd, C01.flip]
 
+/-- **C01, volume preservation with reflections, any dimension, Unit / Diagonal metric, two-sided box**:
+    the proposal map of every integrator (every `n`, `h`, coefficient set, measurable gradient) carries
+    Lebesgue measure on the open box to itself -/
+theorem C01.propose_volume_preserving_boxed_diag (l u w : ι → ℝ) (hlu : ∀ i, l i < u i) (g : Vec ι → Vec ι)
+    (hg : Measurable g) (c : Coeffs ℝ) (i : Integrator) (h : ℝ) (n : Nat) :
+    MeasurePreserving
+      (fun x : Vec ι × Vec ι => toProd (runOps (C01.diagVel w) g
+        (C01.boxRefl (fun i => some (l i)) (fun i => some (u i))) (schedule c i h n) (ofProd x)))
+      (((volume : Measure (Vec ι)).prod volume).restrict (openBox l u))
+      (((volume : Measure (Vec ι)).prod volume).restrict (openBox l u)) :=
+  trajBox_mp l u w hlu g hg (schedule c i h n)
+
 end HmcVerif
